@@ -2873,6 +2873,21 @@ theorem csum_le_wset (B M : ι → ι → ℝ) (S : ι → Prop) [DecidablePred 
 
 end nestcount
 
+section csumpos
+variable {ι : Type} [Fintype ι] [DecidableEq ι]
+open BigOperators Finset
+
+/-- a non-zero entry of a non-negative matrix makes its column sum positive -/
+theorem csum_pos_of_witness (B : ι → ι → ℝ) (hB : ∀ a b, 0 ≤ B a b) (x y : ι) (h : B x y ≠ 0) :
+    0 < csum B y := by
+  have hpos : 0 < B x y := lt_of_le_of_ne (hB x y) (Ne.symm h)
+  have hle : B x y ≤ ∑ a, B a y :=
+    Finset.single_le_sum (f := fun a => B a y) (fun a _ => hB a y) (Finset.mem_univ x)
+  unfold csum
+  exact lt_of_lt_of_le hpos hle
+
+end csumpos
+
 -- (tenth batch, `section dijkstra`: definitions `wwalk`, `reachw`, `wd`; `wd_self`, `wd_nonneg`, `wd_le`, `le_wd`, `wd_approx`, `wd_attained`
 --  (the infimum is a minimum), `wd_relax`, `wd_triangle`, `wwalk_cross(_wd)`, `dijkstra_lower`, `dijkstra_step`, `dijkstra_step_le`,
 --  `dijkstra_step_inv`, `dijkstra_step_T`, `dijkstra_init`, `dijkstra_exhausted`, `dijkstra_smt`, `wd_smt`, `reachw_iff_sdist`, `reachw_iff_walk(_pos)`, `wd_pos`, `wd_pred`:
@@ -2887,5 +2902,6 @@ end nestcount
 --  `sdist_renum_cells`, `wd_renum_cells`, `tot_renum_cells`: all proved.)
 -- (fifteenth batch, `section diagcount`: `ccnt_congr_support`, `cnt1_congr_support`, `ccnt_diag_set`, `cnt1_diag_set`: all proved.)
 -- (sixteenth batch, `section nestcount`: `ccnt_le_dset`, `cnt_le_rset`, `ccnt_pos_of_witness`, `cnt_pos_of_witness`, `csum_le_wset`: all proved.)
+-- (seventeenth batch, `section csumpos`: `csum_pos_of_witness`: proved.)
 
 end VerifLemmas
